@@ -45,6 +45,12 @@ def compare(rec, got, st, case, log, samples_total):
     return True
 
 
+def _attach(sim, case):
+    from .. import txsan, passive
+    txsan.maybe_attach(sim, case)
+    passive.maybe_attach(sim, case)
+
+
 def run_fifo(rec, rnd, cycles, case):
     slots, maxlat, ways = case["slots"], case["max_latency"], case["ways"]
     dut = FIFOLatencyMeasurer("lat", slots_number=slots, max_latency=maxlat, ways=ways)
@@ -59,6 +65,8 @@ def run_fifo(rec, rnd, cycles, case):
         sim = PysimSimulator(ModuleConnector(circ, rv), max_cycles=cycles + 10)
     else:
         sim = PysimSimulator(circ, max_cycles=cycles + 10)
+    _attach(sim, case)
+    _attach(sim, case)
     h = dut.histogram
     st = fresh(h)
     q = [collections.deque() for _ in range(ways)]
@@ -117,6 +125,7 @@ def run_wide(rec, rnd, cycles, case):
     dut = WideFIFOLatencyMeasurer("w", slots_number=slots, max_latency=maxlat, max_start_count=ms, max_stop_count=mp)
     circ = SimpleTestCircuit(dut)
     sim = PysimSimulator(circ, max_cycles=cycles + 10)
+    _attach(sim, case)
     h = dut.histogram
     st = fresh(h)
     q = collections.deque()
@@ -167,6 +176,7 @@ def run_tagged(rec, rnd, cycles, case):
     dut = TaggedLatencyMeasurer("t", slots_number=slots, max_latency=maxlat, ways=ways)
     circ = SimpleTestCircuit(dut)
     sim = PysimSimulator(circ, max_cycles=cycles + 10)
+    _attach(sim, case)
     h = dut.histogram
     st = fresh(h)
     taken: dict[int, int] = {}
@@ -174,20 +184,28 @@ def run_tagged(rec, rnd, cycles, case):
     async def drv(ctx):
         trig = ctx.tick().sample(*[io.adapter.done for io in circ.start], *[io.adapter.done for io in circ.stop], *regs_of(h))
         log = collections.deque(maxlen=8)
+        deadline: dict[int, int] = {}  # slot -> cycle in which its stop is requested (latency chosen at start: 30% exactly max_latency)
         for cyc in range(cycles):
             free = [s for s in range(slots) if s not in taken]
             rnd.shuffle(free)
-            old = sorted(taken, key=lambda s: taken[s])
-            if rnd.random() < 0.5:
-                rnd.shuffle(old)
-                old.sort(key=lambda s: cyc - taken[s] < maxlat - 2 - ways)  # urgent ones first, otherwise out of order
-            sa, pa = [], []
+            due = sorted((s for s in taken if deadline[s] <= cyc), key=lambda s: deadline[s])
+            sa, pa, plan_lat = [], [], []
+            load = collections.Counter(deadline.values())  # stop requests already planned per cycle (at most `ways` fit into one cycle)
             for k in range(ways):
                 s_ = free.pop() if free else None
+                lat = maxlat if rnd.random() < 0.3 else rnd.randint(1, maxlat)
+                while lat >= 1 and load[cyc + lat] >= ways:
+                    lat -= 1
+                if lat < 1:
+                    s_ = None  # no stop port free in any admissible cycle: do not start an event now
+                start_en = s_ is not None and rnd.random() < 0.5
+                if start_en:
+                    load[cyc + lat] += 1
                 sa.append(s_)
-                ctx.set(circ.start[k].adapter.en, s_ is not None and rnd.random() < 0.5)
+                plan_lat.append(lat)
+                ctx.set(circ.start[k].adapter.en, start_en)
                 ctx.set(circ.start[k].adapter.data_in, {"slot": s_ or 0})
-                p_ = old.pop(0) if old and (cyc - taken[old[0]] >= maxlat - 2 - ways or rnd.random() < 0.4) else None
+                p_ = due.pop(0) if due else None
                 pa.append(p_)
                 ctx.set(circ.stop[k].adapter.en, p_ is not None)
                 ctx.set(circ.stop[k].adapter.data_in, {"slot": p_ or 0})
@@ -204,8 +222,15 @@ def run_tagged(rec, rnd, cycles, case):
             for k in range(ways):
                 if v[k]:
                     taken[sa[k]] = cyc
+                    deadline[sa[k]] = cyc + plan_lat[k]
+            for s_ in list(deadline):
+                if s_ not in taken:
+                    del deadline[s_]
             for s in samples:
                 rec.count("samples")
+                if s == maxlat:
+                    rec.count("samples_at_max_latency")
+                rec.check("harness:latency_within_max_latency", s <= maxlat, case=case, detail={"latency": s, "max_latency": maxlat}) if s > maxlat else None
                 rec.nontrivial(f"tagged|slots{slots}|lat_bucket{min(s.bit_length(), 9)}|ways{ways}")
             if len(samples) > 1:
                 rec.count("multi_sample_stops")
@@ -227,13 +252,13 @@ def run_shard(spec, rec):
         rnd = random.Random(f"C32:{spec['seed']}:{i}")
         kind = ["fifo", "wide", "tagged"][i % 3]
         if kind == "fifo":
-            case = {"measurer": "FIFOLatencyMeasurer", "slots": rnd.randint(1, 8), "max_latency": rnd.choice([3, 7, 15, 100]), "ways": rnd.randint(1, 3)}
+            case = {"measurer": "FIFOLatencyMeasurer", "slots": rnd.randint(1, 8), "max_latency": rnd.choice([3, 4, 7, 8, 15, 16, 64, 100]), "ways": rnd.randint(1, 3)}
         elif kind == "wide":
             ms, mp = rnd.randint(1, 3), rnd.randint(1, 3)
-            case = {"measurer": "WideFIFOLatencyMeasurer", "slots": max(ms, mp) * rnd.randint(1, 3), "max_latency": rnd.choice([15, 31, 100]),
+            case = {"measurer": "WideFIFOLatencyMeasurer", "slots": max(ms, mp) * rnd.randint(1, 3), "max_latency": rnd.choice([15, 16, 31, 32, 100]),
                     "max_start_count": ms, "max_stop_count": mp}
         else:
-            case = {"measurer": "TaggedLatencyMeasurer", "slots": rnd.randint(1, 8), "max_latency": rnd.choice([7, 15, 100]), "ways": rnd.randint(1, 3)}
+            case = {"measurer": "TaggedLatencyMeasurer", "slots": rnd.randint(1, 8), "max_latency": rnd.choice([4, 7, 8, 15, 16, 64, 100]), "ways": rnd.randint(1, 3)}
         case["history"] = i
         with DependencyContext(DependencyManager()):
             DependencyContext.get().add_dependency(HwMetricsEnabledKey(), True)
